@@ -96,14 +96,16 @@ Section C05.
     intros f c inst ps. induction ps as [|p ps IH]; intros idx st Hs Hu; [discriminate|].
     simpl in Hu. cbn [pass_named].
     destruct (p_ann p) as [a|]; [|eauto].
+    assert (Hpos : takes_positional p && negb (should_have_kwargs pc f) && Nat.ltb idx (List.length (wargs c)) = false)
+      by (rewrite Hs; simpl; now rewrite andb_false_r).
+    rewrite Hpos.
     apply orb_true_iff in Hu as [Hu|Hu].
     - unfold unfilled_param in Hu. destruct (p_default p) as [d|]; [discriminate|].
-      apply negb_true_iff in Hu. unfold kw_names in Hu. rewrite (kw_get_none _ _ Hu), Hs. simpl. eauto.
-    - destruct (kw_get (p_name p) (c_kwargs c)) as [v|].
+      apply negb_true_iff in Hu. unfold kw_names in Hu. rewrite (kw_get_none _ _ Hu). destruct (takes_keyword p); eauto.
+    - destruct (if takes_keyword p then kw_get (p_name p) (c_kwargs c) else None) as [v|].
       + match goal with |- context [Exn.bind ?m ?k] => destruct m as [st1|e] end; simpl; eauto.
-      + destruct (p_default p) as [d|].
-        * match goal with |- context [Exn.bind ?m ?k] => destruct m as [st1|e] end; simpl; eauto.
-        * rewrite Hs. simpl. eauto.
+      + destruct (p_default p) as [d|]; [|eauto].
+        match goal with |- context [Exn.bind ?m ?k] => destruct m as [st1|e] end; simpl; eauto.
   Qed.
 
   Definition some_required_unfilled (f : fn) (c : call) : bool :=
@@ -138,12 +140,16 @@ Section C05.
                 exists e, Exn.bind (chk check consumes f c inst a v s st1) k = Raise e /\ is_pedantic e = true).
       { intros v s st1 k Hk. unfold chk. rewrite Hprobe. destruct (check a v (a_tv st1)) as [[uu|e] tv'] eqn:Ec; simpl; [apply Hk|].
         exists e. split; [reflexivity|]. eapply check_ped. rewrite Ec. reflexivity. }
+      assert (Hpos : takes_positional p && negb (should_have_kwargs pc f) && Nat.ltb idx (List.length (wargs c)) = false)
+        by (rewrite Hs; simpl; now rewrite andb_false_r).
+      rewrite Hpos.
       apply orb_true_iff in Hu as [Hu|Hu].
       - unfold unfilled_param in Hu. destruct (p_default p) as [d|]; [discriminate|].
-        apply negb_true_iff in Hu. unfold kw_names in Hu. rewrite (kw_get_none _ _ Hu), Hs. simpl. exists PTypeCheckC. split; reflexivity.
-      - destruct (kw_get (p_name p) (c_kwargs c)) as [v|]; [apply Hchk; intros st2; now apply IH|].
+        apply negb_true_iff in Hu. unfold kw_names in Hu. rewrite (kw_get_none _ _ Hu).
+        destruct (takes_keyword p); exists PTypeCheckC; split; reflexivity.
+      - destruct (if takes_keyword p then kw_get (p_name p) (c_kwargs c) else None) as [v|]; [apply Hchk; intros st2; now apply IH|].
         destruct (p_default p) as [d|]; [apply Hchk; intros st2; now apply IH|].
-        rewrite Hs. simpl. exists PTypeCheckC. split; reflexivity.
+        exists PTypeCheckC. split; reflexivity.
     Qed.
 
     Lemma unfilled_never_runs_ped : forall f c bd,
